@@ -397,7 +397,22 @@ def _api_monitor2(seed, i, fam, n, out):
     pix = g("pix", (12, 2), 50.0); depth = g("depth", (12,)).abs() + 1
     eul = g("eul", (n, 3), 0.5)
     M3 = R3.matrix(); M4 = T.matrix(); MS = S.matrix()
+    # special values: a point at infinity (w = 0), an all-zero initial guess, exact zeros in vectors
+    hinf = pp.cart2homo(pts).clone(); hinf[0, -1] = 0.0; hinf[1, -1] = 1e-320
+    Mspd = A[0] @ A[0].mT + 3 * torch.eye(3, dtype=dt); rhs = g("rhs", (3, 1)); x0 = torch.zeros(3, 1, dtype=dt)
+    vz = v.clone(); vz[0] = 0.0
+    Mrect = g("Mrect", (5, 3)); rhs5 = g("rhs5", (5, 1))
     calls = [
+        ("homo2cart:w=0", lambda: pp.homo2cart(hinf), [hinf]),
+        ("CG", lambda: pp.optim.solver.CG()(Mspd, rhs), [Mspd, rhs]),
+        ("CG:x0=zeros", lambda: pp.optim.solver.CG()(Mspd, rhs, x=x0), [Mspd, rhs, x0]),
+        ("CG:x0", lambda: pp.optim.solver.CG()(Mspd, rhs, x=rhs.clone() * 0.1), [Mspd, rhs]),
+        ("Cholesky", lambda: pp.optim.solver.Cholesky()(Mspd, rhs), [Mspd, rhs]),
+        ("PINV", lambda: pp.optim.solver.PINV()(Mrect, rhs5), [Mrect, rhs5]),
+        ("LSTSQ", lambda: pp.optim.solver.LSTSQ()(Mrect, rhs5), [Mrect, rhs5]),
+        ("vec2skew:zeros", lambda: pp.vec2skew(vz), [vz]), ("bmv:zeros", lambda: pp.bmv(A, vz), [A, vz]),
+        ("kernel:Huber", lambda: pp.optim.kernel.Huber(0.5)(vz.square().sum(-1)), [vz]),
+        ("FastTriggs", lambda: pp.optim.corrector.FastTriggs(pp.optim.kernel.Huber(0.5))(R=v, J=g("Jc", (n * 3, 4))), [v]),
         ("quat2unit", lambda: pp.quat2unit(Xu), [Xu]),
         ("mat2SO3", lambda: pp.mat2SO3(M3), [M3]), ("mat2SE3", lambda: pp.mat2SE3(M4), [M4]),
         ("mat2Sim3", lambda: pp.mat2Sim3(MS), [MS]), ("from_matrix", lambda: pp.from_matrix(M4, pp.SE3_type), [M4]),
